@@ -28,7 +28,9 @@ inline std::enable_if_t<!std::is_unsigned<T>::value, T> diff(T const &a, T const
 template <typename T>
 inline std::enable_if_t<std::is_unsigned<T>::value, T> diff(T const &a, T const &b)
 {
-  return std::min(a - b, b - a);
+  // Do not use min(a - b, b - a): for types narrower than int both differences
+  // are computed in int, and for large distances the wrapped difference is smaller.
+  return a < b ? static_cast<T>(b - a) : static_cast<T>(a - b);
 }
 
 }
